@@ -100,13 +100,17 @@ def Pending.erase (p : Pending) (k : Int) : Pending := p.filter (fun e => !(e.1 
 def Pending.set (p : Pending) (k : Int) (m : Message) : Pending :=
   if p.any (·.1 == k) then p.map (fun e => if e.1 == k then (k, m) else e) else p ++ [(k, m)]
 
+/-- the message a block extends: a new one built by `message_type.from_block(block)`, or the pending one with the block appended -/
+def extend (st : Option Message) (b : Block) : Message :=
+  match st with
+  | none => split b.header b.data false
+  | some m => m ++ [b]
+
 /-- `Protocol._add_message_block`: returns the new dictionary and the completed message, if any -/
 def addBlock (p : Pending) (b : Block) : Pending × Option Message :=
-  let k := b.header.system
-  let m : Message := match p.lookup k with
-    | none => split b.header b.data false          -- `message_type.from_block(block)`
-    | some m => m ++ [b]
-  if m.complete then (p.erase k, some m) else (p.set k m, none)
+  if (extend (p.lookup b.header.system) b).complete
+  then (p.erase b.header.system, some (extend (p.lookup b.header.system) b))
+  else (p.set b.header.system (extend (p.lookup b.header.system) b), none)
 
 /-- feed a sequence of blocks; completed messages in completion order -/
 def reassemble : Pending → List Block → Pending × List Message
